@@ -494,7 +494,7 @@ fn execute(world: &World, case: &Case, chooser: &mut dyn Chooser, info: &mut Cas
             };
             return Verdict::fail(
                 key,
-                format!("repository {} was fetched {} times in one run (rsync metrics list it {} times); users (thread, CA) {:?}; calls {:?}; trace: {}", module, n, m, users, calls, crate::hsched::render_trace(&out.trace)),
+                format!("repository {} was fetched {} times in one run (the run metrics list it {} times); users (thread, CA) {:?}; calls {:?}; trace: {}", module, n, m, users, calls, crate::hsched::render_trace(&out.trace)),
             );
         }
         let tr = if module.starts_with("rrdp:") { "rrdp" } else { "rsync" };
@@ -550,9 +550,9 @@ fn run_dfs(ctx: &Ctx, rep: &mut Report, world: &World) {
     // quick tier enumerates all schedules with at most two preemptions; thorough enumerates all
     let bound = ctx.tier.pick(2usize, usize::MAX);
     let bound_rrdp = std::env::var("RV_BOUND_RRDP").ok().and_then(|v| v.parse().ok()).unwrap_or(ctx.tier.pick(3usize, usize::MAX));
-    let cap = ctx.tier.pick(2_500usize, 4_000);
-    let cap_other = ctx.tier.pick(250usize, 4_000);
-    let cap_rrdp = ctx.tier.pick(2_500usize, 20_000);
+    let cap = ctx.tier.pick(2_500usize, 2_500);
+    let cap_other = ctx.tier.pick(250usize, 600);
+    let cap_rrdp = ctx.tier.pick(2_500usize, 4_000);
     let mut per_program = Vec::new();
     let mut all_exhausted = true;
     let mut total = 0usize;
@@ -579,7 +579,7 @@ fn run_dfs(ctx: &Ctx, rep: &mut Report, world: &World) {
                 break;
             }
             // the programs over one shared module are the subject; the others are capped lower
-            let one_module = prog.threads.iter().flatten().map(|c| module_of(*c as usize % CAS.len())).collect::<std::collections::BTreeSet<_>>().len() == 1;
+            let one_module = prog.threads.len() == 2 && prog.threads.iter().all(|t| t.len() == 1) && prog.threads.iter().flatten().map(|c| module_of(*c as usize % CAS.len())).collect::<std::collections::BTreeSet<_>>().len() == 1;
             if n >= if rrdp_only { cap_rrdp } else if one_module { cap } else { cap_other } {
                 break;
             }
@@ -617,7 +617,7 @@ fn directed_known() -> Case {
 //------------ uncontrolled stress -----------------------------------------------------------------
 
 fn run_stress(ctx: &Ctx, rep: &mut Report) {
-    let rounds = ctx.tier.pick(8usize, 150);
+    let rounds = ctx.tier.pick(8usize, 60);
     let world = World::new(ctx, true);
     let nthreads = 8usize;
     let mut overlapped = 0usize;
@@ -789,12 +789,12 @@ pub fn run(ctx: &Ctx, rep: &mut Report, replay: Option<&serde_json::Value>) {
     if rep.violated() {
         return;
     }
-    run_prop(ctx, rep, "sched", ctx.tier.pick(80, 2_000), case_strategy(false), |c, i| prop_sched(&world, c, i));
+    run_prop(ctx, rep, "sched", ctx.tier.pick(80, 1_000), case_strategy(false), |c, i| prop_sched(&world, c, i));
     flush_excluded(rep);
     if rep.violated() {
         return;
     }
-    run_prop_salted(ctx, rep, "sched", "sched-rrdp", ctx.tier.pick(600, 20_000), case_strategy(true), |c, i| prop_sched(&world, c, i));
+    run_prop_salted(ctx, rep, "sched", "sched-rrdp", ctx.tier.pick(600, 6_000), case_strategy(true), |c, i| prop_sched(&world, c, i));
     if rep.violated() {
         return;
     }
@@ -802,5 +802,5 @@ pub fn run(ctx: &Ctx, rep: &mut Report, replay: Option<&serde_json::Value>) {
     if rep.violated() {
         return;
     }
-    run_prop(ctx, rep, "engine", ctx.tier.pick(6, 150), engine_strategy(), |c, i| prop_engine(ctx, c, i));
+    run_prop(ctx, rep, "engine", ctx.tier.pick(6, 60), engine_strategy(), |c, i| prop_engine(ctx, c, i));
 }
